@@ -3,7 +3,7 @@ use rusty_pc::*;
 
 use crate::input::StringView;
 use crate::pc_specific::*;
-use crate::tokens::comma_ws;
+use crate::tokens::{any_symbol_of, any_token_of, comma_ws};
 use crate::{ExpressionPos, ExpressionTrait, Expressions, Keyword, ParserError};
 
 /// Parses an expression.
@@ -48,7 +48,12 @@ pub fn csv_expressions_first_guarded()
 /// <ws> <expr>
 /// ```
 pub fn ws_expr_pos_p() -> impl Parser<StringView, Output = ExpressionPos, Error = ParserError> {
-    super::parenthesis::parser().or(lead_ws(expression_pos_p()))
+    // an expression that starts with a parenthesis needs no whitespace in front of it,
+    // but it does not have to end at the closing parenthesis, e.g. `NOT(A) + 2`
+    any_symbol_of!('(')
+        .peek()
+        .and_keep_right(expression_pos_p())
+        .or(lead_ws(expression_pos_p()))
 }
 
 /// Parses an expression that is either surrounded by whitespace
